@@ -144,6 +144,21 @@ int main(int argc, char** argv) {
     vf::Out o((outdir + "/httptok.ndjson").c_str());
     for (const auto& c : cases) { if (c["k"].s == "uri") { httpRec(o, d, "tok", c["u"].bytes()); n++; } }
   }
+  if (strcmp(argv[3], "replay")) {  // (b) HTTP: seeded random longer URIs over the spec's token alphabet
+    vf::Out o((outdir + "/httprand.ndjson").c_str());
+    vector<string> tokens;
+    for (const auto& c : cases) if (c["k"].s == "tokens") for (size_t i = 0; i < c["list"].size(); i++) tokens.push_back(c["list"][i].bytes());
+    if (tokens.empty()) { fprintf(stderr, "no tokens case\n"); return 2; }
+    vf::Rng rng(vf::seedFromEnv());
+    long want = thorough ? 100000 : 20000;
+    for (long k = 0; k < want; k++) {
+      string u = "/";
+      unsigned nt = 5 + rng.below(4);
+      for (unsigned t = 0; t < nt; t++) u += tokens[rng.below(static_cast<unsigned>(tokens.size()))];
+      if (rng.chance(1, 2)) u += "/";
+      httpRec(o, d, "rand", u); n++;
+    }
+  }
   {  // (b) HTTP: every URI up to the length bound over the character alphabet
     vf::Out o((outdir + "/httpchar.ndjson").c_str());
     const char alpha[] = {'%', '2', 'e', 'f', '/', '.', 'a', '?'};
